@@ -292,6 +292,31 @@ func (e *symEnv) eval(x ast.Expr) (lpoly, bool) {
 			}
 			return r, ok
 		}
+		// bit operations and remainders on two constants (a quadrant number that was fixed to 0..3)
+		if ca, oka := constOf(a); oka {
+			if cb, okb := constOf(b); okb {
+				switch v.Op {
+				case token.AND:
+					return pInt(ca & cb), true
+				case token.OR:
+					return pInt(ca | cb), true
+				case token.XOR:
+					return pInt(ca ^ cb), true
+				case token.SHR:
+					if cb >= 0 && cb < 63 {
+						return pInt(ca >> uint(cb)), true
+					}
+				case token.SHL:
+					if cb >= 0 && cb < 63 {
+						return pInt(ca << uint(cb)), true
+					}
+				case token.REM:
+					if cb != 0 {
+						return pInt(ca % cb), true
+					}
+				}
+			}
+		}
 		e.err = "unsupported operator in " + core.ExprStr(v)
 		return nil, false
 	case *ast.UnaryExpr:
@@ -332,12 +357,14 @@ func (e *symEnv) eval(x ast.Expr) (lpoly, bool) {
 					return nil, false
 				}
 				return pSym("2^(" + a.String() + ")"), true
-			case pureAccessor(e.p, f):
-				// X(), MinX(): opaque symbol
-				return pSym(e.symName(v)), true
 			}
+			// a plain arithmetic helper of numeric parameters is evaluated in place; accessors (methods and
+			// functions of non-numeric operands such as X(), MinX()) stay opaque symbols
 			if r, ok := e.inlineCall(f, v); ok {
 				return r, true
+			}
+			if pureAccessor(e.p, f) {
+				return pSym(e.symName(v)), true
 			}
 		}
 		return pSym(e.symName(v)), true
@@ -426,6 +453,21 @@ func (e *symEnv) inlineCall(f *types.Func, call *ast.CallExpr) (lpoly, bool) {
 		return nil, false
 	}
 	return sub.eval(last.Results[0])
+}
+
+// constOf: p is an integer constant.
+func constOf(p lpoly) (int64, bool) {
+	if len(p) == 0 {
+		return 0, true
+	}
+	if len(p) != 1 {
+		return 0, false
+	}
+	c, ok := p[""]
+	if !ok || !c.IsInt() || !c.Num().IsInt64() {
+		return 0, false
+	}
+	return c.Num().Int64(), true
 }
 
 // assign records `lhs = rhs` / `lhs := rhs`.
